@@ -18,6 +18,7 @@ Verdict(e) ==
        THEN "value_within_the_maximum_length_refused_by_strict"
   ELSE IF e.out_s = "ok" /\ e.dt_given # "" /\ e.dt_official \notin {"", "varies"} /\ e.dt_given # e.dt_official
        THEN "datatype_overridden_under_strict"           \* (constructor given a datatype other than the table's)
+  ELSE IF e.out_s = "ok" /\ e.foreign THEN "foreign_child_accepted_by_strict"   \* (a named child of another structure)
   ELSE IF e.out_s # "ok" THEN "ok"                       \* STRICT refused: nothing is claimed
   ELSE IF e.out_t # "ok" THEN "accepted_by_strict_rejected_by_tolerant"
   ELSE IF e.enc_t # e.enc_s THEN "encoding_differs_between_levels"
